@@ -144,6 +144,12 @@ func applyEvil(r *Run, o *stubOrigin, kind string) {
 					_ = i
 				}
 			}
+		case "rendition-two-tracks":
+			if si > 0 && st.container == "fmp4" && len(st.tracks) == 1 {
+				cp := *st.tracks[0]
+				cp.id = 2
+				st.tracks = append(st.tracks, &cp)
+			}
 		case "mixed-containers":
 			if si > 0 && st.container == "fmp4" {
 				// a rendition in MPEG-TS next to an fMP4 leading stream (and the other way round)
@@ -219,6 +225,17 @@ func applyEvil(r *Run, o *stubOrigin, kind string) {
 	}
 	if o.multi {
 		o.multiRaw = o.multivariant()
+		if kind == "audio-group-missing" {
+			// the variant names an AUDIO group that no EXT-X-MEDIA defines
+			var keep []string
+			for _, l := range strings.Split(string(o.multiRaw), "\n") {
+				if !strings.HasPrefix(l, "#EXT-X-MEDIA:") {
+					keep = append(keep, l)
+				}
+			}
+			o.multiRaw = []byte(strings.Replace(strings.Join(keep, "\n"), "CODECS=", "AUDIO=\"aud\",CODECS=", 1))
+			o.multiRaw = []byte(strings.Replace(string(o.multiRaw), ",AUDIO=\"aud\"\n", "\n", 1))
+		}
 	}
 }
 
@@ -370,7 +387,7 @@ func scC13(spot bool) Scenario {
 		evil := "none"
 		if !spot || T.Chance(1, 3) {
 			evil = Pick(T, "unsupported-codec-extra", "unsupported-codec-extra", "unsupported-codec-only", "unsupported-codec-first",
-				"track-id-permutation", "no-leading-data", "many-tracks", "huge-times", "mixed-containers")
+				"track-id-permutation", "no-leading-data", "many-tracks", "huge-times", "mixed-containers", "rendition-two-tracks", "audio-group-missing")
 			applyEvil(r, o, evil)
 		}
 		// byte-level damage at chosen request positions
